@@ -16,7 +16,7 @@ def in_instance(m, L, tier):
     """quick: every method at L=3, mutators and compare also at L=5 (the find_*_of family through
     strchr costs 100+ s per overload at L=5); thorough: everything at 2, 3, 5, mutators at 8."""
     if tier == 'quick':
-        return L == 3 or m.mut or m.id.startswith('compare')
+        return L == 3 or m.mut or m.id.startswith(('compare', 'contains', 'find_', 'rfind_', 'starts_with', 'ends_with')) and not m.id.startswith(('find_first', 'find_last'))
     return L <= 5 or m.mut
 
 
@@ -45,7 +45,7 @@ def jobs(unit, tier, only=None):
                 if S2:
                     inst['S2'] = S2
                 fn = 'FixedString<L>::' + getattr(m, 'disp', m.call)
-                bounded = None if cross else 'source strings <= L+3 characters'
+                bounded = None if (cross or getattr(m, 'long_src', False) or not any(k in ('s', 'S', 'b') for k, _ in m.args)) else 'source strings <= L+3 characters'
                 out.append(Job('c11_%s_%s' % (tag, m.id), fn, 'cw_' + m.id,
                                fs.make_build(unit, m, L, K, True, methods, outside, S2=S2), backend='sat',
                                unwind=K + L + (S2 or 0) + 4, timeout=900 if tier == 'quick' else 3000, instance=dict(inst, excluded_regions=[r for r in outside]),
